@@ -159,8 +159,8 @@ Definition same_dnames_below (z z' : list zframe) : Prop :=
 (* let / const / class / parameter on the top frame *)
 Lemma L_decl_top a fr pr rest decl x :
   AInv a ((fr, pr) :: rest) ->
-  decl = LexicalDecl \/ decl = ArgumentDecl ->
-  ~ In x (dnames fr) -> In x (pnames pr) -> (decl = LexicalDecl -> In x (plex pr)) ->
+  decl = LexicalDecl \/ decl = ArgumentDecl \/ decl = CatchDecl ->
+  ~ In x (dnames fr) -> In x (pnames pr) -> (decl <> ArgumentDecl -> In x (plex pr)) ->
   (decl = ArgumentDecl -> ~ In (UPend x) (fund fr)) ->
   let z := (fr, pr) :: rest in
   exists a' fr',
@@ -171,13 +171,13 @@ Lemma L_decl_top a fr pr rest decl x :
     map (final (env_of z)) (alog a') = TBind (fid fr) false x :: map (final (env_of z)) (alog a).
 Proof.
   intros A Hd Hnot Hp Hlex Harg z.
-  assert (Hnh : (decl =? VariableDecl) || (decl =? FunctionDecl) = false) by (destruct Hd as [-> | ->]; reflexivity).
+  assert (Hnh : (decl =? VariableDecl) || (decl =? FunctionDecl) = false) by (destruct Hd as [-> | [-> | ->]]; reflexivity).
   rewrite a_declare_unfold, Hnh. rewrite (A_stack _ _ A). cbn [map fst].
   rewrite a_declare_at_ok.
   2:{ intros kk Hin. exfalso. apply Hnot. unfold dnames. apply in_map_iff. exists (x, kk). split; [reflexivity|exact Hin]. }
   destruct (L_declare a [] fr pr rest decl x A) as (A' & Hs & Hfin); try assumption.
   { intros g []. } { intros H. exfalso. apply H. reflexivity. }
-  { intros Hlt. apply Hlex. destruct Hd as [-> | ->]; [reflexivity|unfold ArgumentDecl in Hlt; lia]. }
+  { intros Hlt. apply Hlex. intros ->. unfold ArgumentDecl in Hlt. lia. }
   cbn [map app] in A', Hfin.
   eexists. exists (decl_frame fr decl x). split; [reflexivity|]. split; [exact A'|].
   destruct (decl_frame_shape fr decl x) as [E1 E2]. split; [exact E1|]. split; [exact E2|].
